@@ -15,9 +15,19 @@ def extract(repo, o):
         if a.arg == "epsilon":
             o.flt("WEIGHT_EPSILON", ast.literal_eval(v), seg(src, v), "apply_weights epsilon (minimum bin weight)")
     # `x = 0.9` emphasis of the reference-spread weight
+    # (whatever the local is called: the factor of `fancy_wt` in `<e> * fancy_wt + (1 - <e>) * simple_wt`)
+    from ..translate import expand
+    emph = None
     for n in ast.walk(fn):
-        if isinstance(n, ast.Assign) and isinstance(n.targets[0], ast.Name) and n.targets[0].id == "x":
-            o.flt("WEIGHT_REF_EMPHASIS", ast.literal_eval(n.value), seg(src, n.value), "apply_weights x")
+        if isinstance(n, ast.BinOp) and isinstance(n.op, ast.Add) and isinstance(n.left, ast.BinOp) \
+                and isinstance(n.left.op, ast.Mult) and isinstance(n.left.right, ast.Name) and n.left.right.id == "fancy_wt":
+            emph = expand(n.left.left, fn, tree)
+    if emph is None:
+        for n in ast.walk(fn):
+            if isinstance(n, ast.Assign) and isinstance(n.targets[0], ast.Name) and n.targets[0].id == "x":
+                emph = n.value
+    if emph is not None and isinstance(emph, ast.Constant):
+        o.flt("WEIGHT_REF_EMPHASIS", ast.literal_eval(emph), seg(src, emph), "apply_weights x")
     # upper clip of the weights: `weights.clip(epsilon, 1.0)`
     for n in ast.walk(fn):
         if isinstance(n, ast.Call) and isinstance(n.func, ast.Attribute) and n.func.attr == "clip" and len(n.args) == 2:
